@@ -445,7 +445,7 @@ void ExecImpl::op_set_reporter(const Op& op) {
   if (shadow) return;
   auto rf = [gen](trompeloeil::severity s, char const* file, unsigned long line, std::string const& msg) {
     bool fatal = s == trompeloeil::severity::fatal;
-    if (g_cur) g_cur->cur_obs().reports.push_back(RawReport{gen, fatal, file ? file : "", line, msg});
+    if (g_cur) { g_cur->cur_obs().reports.push_back(RawReport{gen, fatal, file ? file : "", line, msg}); g_cur->on_report(fatal); }
     if (fatal) throw fatal_report{};
   };
   auto of = [gen](char const* msg) { if (g_cur) g_cur->cur_obs().oks.push_back(RawOk{gen, msg ? msg : ""}); };
